@@ -20,6 +20,7 @@ import errno
 import gc
 import io
 import itertools
+import re
 import socket
 import sys
 import types
@@ -138,7 +139,11 @@ REQCFGS = [
 # caller passes `body_pos=0` (the first invocation rewinds, too), `badtimeout=True` passes `timeout=-1` (rejected by
 # `Timeout`: ValueError, the caller's own argument error), `badpooltimeout=True` passes `pool_timeout=-1` (rejected
 # by `queue.get(block=True, timeout=-1)` inside `_get_conn`: ValueError on a block=True pool — the caller's own
-# argument error again; a block=False pool never looks at `pool_timeout`)
+# argument error again; a block=False pool never looks at `pool_timeout`), `badheader=True` passes
+# `headers={"X-Bad": "\u0100"}`: the request is rejected on the client side AFTER the checkout, between `putrequest()`
+# and `endheaders()` (`putheader` cannot encode the value as latin-1: UnicodeEncodeError, a ValueError that none of
+# urlopen's handlers matches) -> not a byte is written, the connection object (whose output buffer holds the request
+# line) is thrown away, the exception reaches the caller unretried
 EXTRA_KW = [
     dict(body="file"),
     dict(body="file", bodypos=True),
@@ -146,7 +151,10 @@ EXTRA_KW = [
     dict(body="file", badtimeout=True),
     dict(badpooltimeout=True),
     dict(body="file", badpooltimeout=True),
+    dict(badheader=True),
+    dict(body="file", badheader=True),
 ]
+BAD_HEADER = {"X-Bad": "\u0100"}
 # outcomes after which urlopen goes on to another invocation (given budget), and the failures between the attempts
 HOP_OUTCOMES = ["302", "302-close", "302-ra", "303", "503-ra", "conn-refused", "recv-reset", "send-reset"]
 WAIT_FAILURES = ["503-ra-bad", "503-ra-intr", "302-ra-bad", "302-ra-intr"]
@@ -169,6 +177,8 @@ def cls_name(cls) -> str:
         return "SslCertVerificationError"
     if cls is http.client.IncompleteRead:
         return "HttpIncompleteRead"
+    if issubclass(cls, UnicodeError):
+        return "ValueError"          # `UnicodeEncodeError` from `putheader`: the model's class table has its base class
     if cls.__module__ == "urllib3.exceptions":
         return "U3" + cls.__name__
     return cls.__name__
@@ -232,6 +242,7 @@ def split_reply(rid: int, j: int, a: dict, method: str):
 
 
 RETRY_AFTER = {"ok": "0", "invalid": "soon", "intr": "1"}
+_TARGET = re.compile(r"/r(\d+)$")
 
 
 NOISE_HEADERS = [[], [], ["Keep-Alive: timeout=5, max=100"], ["Connection: keep-alive", "Keep-Alive: timeout=30"], [],
@@ -342,6 +353,8 @@ class World:
         self.get_raised = None       # class of what `_get_conn` raised in the urlopen invocation now running
         self.pwc_sig = ""            # classifier of the first put-without-checkout seen
         self.sleeps = []
+        self.foreign_requests = []   # (rid of the call now running, target the server saw): a request head that is not
+        #                              the one the running call is making reached the server
         net = self.net
         orig_log = net.log
 
@@ -439,6 +452,11 @@ class World:
         if a is None:
             return
         rid, j = self.att_rid, self.att_idx
+        # C03, server side: the request the server sees is the one the running call is making (every request of call
+        # `rid` — first attempt, retry, followed redirect — has the target `…/r<rid>`), and it is ONE request head
+        m = _TARGET.search(req.target or "")
+        if m is None or int(m.group(1)) != rid or any(":" not in k and not v for k, v in req.headers):
+            self.foreign_requests.append((rid, req.target))
         # C03: was this connection clean when the request arrived?
         prev = self.sock_history.get(peer.sid)
         if prev is not None:
@@ -601,6 +619,9 @@ def req_line(rid, op, script_tokens):
     method = op.get("method", "GET")
     ext = "%d%d%d%d" % (int(op.get("body") == "file"), int(bool(op.get("bodypos"))), int(bool(op.get("badtimeout"))),
                         int(bool(op.get("badpooltimeout"))))
+    if op.get("badheader"):
+        ext += "1"
+
     return "req %d %s %d %d %d %d %d %s %s" % (rid, ret, int(op["preload"]), int(rel), int(op.get("redirect", True)),
                                                  int(method != "POST"), int(method == "HEAD"), ext,
                                                  ";".join(script_tokens) if script_tokens else "-")
@@ -655,6 +676,8 @@ def run_history(case, res, check_c01=True, check_c03=False, pid="C01"):
         if type(e) is ValueError and op is not None and (op.get("badtimeout") or
                                                          (op.get("badpooltimeout") and cfg["block"])):
             return       # the caller's own argument error (`timeout=-1` / `pool_timeout=-1`), not a failure of the request
+        if isinstance(e, UnicodeEncodeError) and op is not None and op.get("badheader"):
+            return       # the caller's own argument error again: a header value that cannot be sent
         if isinstance(e, Interrupt):
             if getattr(e, "token", None) not in w.armed:
                 fail("foreign-interrupt", f"{where}: an Interrupt that was not injected")
@@ -693,6 +716,8 @@ def run_history(case, res, check_c01=True, check_c03=False, pid="C01"):
                                 kw["body_pos"] = 0
                         if op.get("badtimeout"):
                             kw["timeout"] = -1
+                        if op.get("badheader"):
+                            kw["headers"] = dict(kw.get("headers") or {}, **BAD_HEADER)
                         try:
                             r = pool.urlopen(method, w.base + "/r%d" % rid, **kw)
                             resps[rid] = r
@@ -787,6 +812,14 @@ def run_history(case, res, check_c01=True, check_c03=False, pid="C01"):
                         result = "ok"
                     else:
                         raise ValueError(kind)
+                    if check_c03 and w.foreign_requests:
+                        cur, tgt = w.foreign_requests[0]
+                        w.foreign_requests = []
+                        bad = [i for i, o in w.req_ops.items() if o.get("badheader") and i < cur]
+                        fail("foreign-request-at-server" + (":after-rejected-request" if bad else ""),
+                             f"while request {cur} was running the server received a request head for {tgt!r} "
+                             f"that is not (only) the head of request {cur}" +
+                             (f" - request(s) {bad} had been rejected on the client side before anything was sent" if bad else ""))
                     out.append("trace=%s q=%s result=%s" % (w.take_trace(), w.queue(), result))
 
                 if check_c01:
@@ -902,7 +935,8 @@ class C01(Prop):
             "held back), connect refused/timeout/name-resolution/"
             "interrupt, send EPIPE/ECONNRESET/EIO/interrupt, receive timeout/reset/EOF/garbage/interrupt; failures "
             "outside the I/O steps: invalid per-request timeout (ValueError before the checkout), negative pool_timeout "
-            "(ValueError inside the checkout of a block=True pool, nothing taken), file-like body that "
+            "(ValueError inside the checkout of a block=True pool, nothing taken), a header value that cannot be encoded "
+            "(UnicodeEncodeError between putrequest() and endheaders(): after the checkout, nothing sent), file-like body that "
             "cannot be rewound at a retry / redirect hop (UnrewindableBodyError before the checkout), the wait between two "
             "attempts raising (Retry-After: soon -> InvalidHeader, time.sleep interrupted)} x "
             "maxsize/block x retries/preload_content/release_conn x direct/forwarding/tunnelling pool x disposal "
@@ -916,7 +950,9 @@ class C01(Prop):
                    "parsing, time.sleep); an interrupt between two bytecodes is outside the model",
                    "a ValueError for a per-request timeout that Timeout rejects is the caller's argument error, not a "
                    "failure of the request (the exception oracle accepts it only for requests that pass timeout=-1, or "
-                   "pool_timeout=-1 to a block=True pool)",
+                   "pool_timeout=-1 to a block=True pool); likewise the UnicodeEncodeError for a header value that cannot "
+                   "be encoded as latin-1 (accepted only for requests that pass that header); the class table of the model "
+                   "has no UnicodeEncodeError: it is compared as its base class ValueError",
                    "bytes arrive when the server sends them (no arrival after the checkout probe)",
                    "tunnelling-proxy pools are checked by the oracle only (the Lean model covers direct and forwarding pools)",
                    "response bodies are shorter than BufferedReader's 8192-byte buffer"]
@@ -940,6 +976,9 @@ class C01(Prop):
             special.append(dict(rc, badtimeout=True, script=[BENIGN, BENIGN]))
             special.append(dict(rc, badpooltimeout=True, script=[BENIGN, BENIGN]))
             special.append(dict(rc, retries=2, body="file", badpooltimeout=True, script=["conn-refused", BENIGN, BENIGN]))
+            # rejected between putrequest() and endheaders(): after the checkout, nothing sent, never retried
+            special.append(dict(rc, badheader=True, script=[BENIGN, BENIGN]))
+            special.append(dict(rc, retries=2, body="file", badheader=True, script=[BENIGN, BENIGN, BENIGN]))
             for first in HOP_OUTCOMES:
                 for xkw in EXTRA_KW[:2]:
                     special.append(dict(rc, retries=2, script=[first, "ok-unrewind", BENIGN], **xkw))
@@ -951,6 +990,7 @@ class C01(Prop):
         # clause that merely refrains from SETTING it when no connection was obtained still puts a `None` back
         for rc in (REQCFGS[2], REQCFGS[4]):
             special.append(dict(rc, badpooltimeout=True, script=[BENIGN, BENIGN]))
+            special.append(dict(rc, badheader=True, script=[BENIGN, BENIGN]))
         for cfg in CONFIGS_QUICK:
             n = cfg["maxsize"]
             for k in range(0, n + 1):
@@ -1011,7 +1051,9 @@ class C01(Prop):
             ops = []
             k = rng.randint(1, nreq)
             live = []
-            for rid in range(k):
+            rid = -1
+            for _req in range(k):
+                rid += 1
                 rc = dict(rng.choice(REQCFGS))
                 if rng.random() < 0.15:
                     rc["method"] = rng.choice(["POST", "HEAD"])
@@ -1022,6 +1064,12 @@ class C01(Prop):
                 script = [rng.choice(NAMES) if rng.random() < 0.7 else BENIGN for _ in range(natt)] + [BENIGN] * 2
                 ops.append(dict(op="req", script=script, **rc))
                 live.append(rid)
+                if rc.get("badheader"):
+                    # a rejected request is always followed by a benign one on the same pool (what the connection
+                    # object kept of the rejected request would go out in front of it)
+                    ops.append(dict(op="req", script=[BENIGN] * 3, **rng.choice(REQCFGS)))
+                    rid += 1
+                    live.append(rid)
                 # dispose now, later, or never
                 while live and rng.random() < 0.6:
                     r = live.pop(rng.randrange(len(live)))
@@ -1047,7 +1095,7 @@ class C01(Prop):
         return lines, out
 
     def nontrivial(self, case, impl_out):
-        return any(op.get("badtimeout") or op.get("badpooltimeout") or op.get("body") or any(a != BENIGN for a in op["script"][:1])
+        return any(op.get("badtimeout") or op.get("badpooltimeout") or op.get("badheader") or op.get("body") or any(a != BENIGN for a in op["script"][:1])
                    for op in case["ops"] if op["op"] == "req")
 
     def shrink_candidates(self, case):
